@@ -810,7 +810,7 @@ def case_popup(box, res, i):
         if rng.random() < 0.5:
             script += [b"USER " + gen_cred(rng), b"PASS " + gen_cred(rng, True)]
         else:
-            script.append(rng.choice([b"APOP ", b"apop "]) + gen_cred(rng) + b" " + gen_cred(rng))
+            script.append(rng.choice([b"APOP ", b"apop "]) + gen_cred(rng) + rng.choice([b" ", b" ", b" ", b"  ", b"   "]) + gen_cred(rng, rng.random() < 0.3))
     elif rng.random() < 0.7:
         script.append(rng.choice([b"QUIT", b"quit"]))
     extra = {"NQV_REC": box.rec}
@@ -853,7 +853,7 @@ def case_popup(box, res, i):
             arg = sp[1] if len(sp) > 1 else b""
             r = model.command(verb, arg)
             pr.send(line + b"\r\n")
-            if r[0] == "auth":
+            if r[0] in ("auth", "auth_or_err"):
                 auth = r
                 wit["expected_fd3"] = core.hx(model.fd3(r[1], r[2])[:300])
                 break
@@ -911,10 +911,21 @@ def case_popup(box, res, i):
         with open(os.path.join(box.rec, f), "rb") as fh:
             seen.append(fh.read())
     wit["checker_fd3"] = [core.hx(s[:300]) for s in seen]
+    if auth is not None and auth[0] == "auth_or_err" and not seen:
+        # an APOP line with surplus blanks may be refused instead: then exactly one -ERR line and nothing else happened
+        rest = out[pos:]
+        ls = rest.split(b"\r\n")
+        if not ls[0].startswith(b"-ERR"):
+            return j.violate("C19/popup/reply/APOP", "an APOP line with surplus blanks neither ran the checker nor was refused: %s" % core.hx(rest[:100]))
+        res.counters.inc("popup_apop_with_surplus_blanks_refused")
+        Judge.final_state(j, sess, box.md, False)
+        return
     if auth is None:
         if seen:
             return j.violate("C19/popup/checker-run-without-credentials", "the checker was started although no PASS/APOP was accepted")
     else:
+        if auth[0] == "auth_or_err":
+            res.counters.inc("popup_apop_with_surplus_blanks_passed_on")
         if len(seen) != 1:
             return j.violate("C19/popup/checker-runs", "the checker ran %d times for one authentication" % len(seen))
         if seen[0] != model.fd3(auth[1], auth[2]):
